@@ -390,9 +390,11 @@ def dependency_closure(ctx: Ctx) -> None:
                                            "generic_hazard_rules": HAZARD_RULES}
         return
     eng = TypestateEngine(ctx.p, "Sequence")
-    wrappers = sorted(q.split(".", 1)[1] for q in reach if q.startswith("Sequence.") and q.split(".", 1)[1] in eng.ci.methods
-                      and not q.split(".", 1)[1].startswith("_") and not eng.ci.methods[q.split(".", 1)[1]].is_static
-                      and q.split(".", 1)[1] not in ("abs", "rel", "invalidate_abs", "invalidate_rel", "refresh"))
+    # the two-view discipline is the class invariant that makes "a sequence" well defined: an operation property quantifies over every
+    # sequence a history of public operations can produce, so *every* public operation of Sequence must leave both views coherent -- a
+    # wrapper that forgets an invalidation (Sequence.quantise, say) hands the operation under test an object whose views disagree
+    wrappers = sorted(m for m, mfi in eng.ci.methods.items() if not m.startswith("_") and not mfi.is_static and not mfi.is_property
+                      and m not in ("abs", "rel", "invalidate_abs", "invalidate_rel", "refresh"))
     sub = Ctx(ctx.p, ctx.prop, ctx.tier)
     check_wrappers(sub, wrappers)
     for o in sub.obligations:
